@@ -1398,7 +1398,7 @@ fn posix_shapes(thorough: bool) -> Vec<String> {
         ("M3.2.0", "299"),
         ("M10.1.0", "M4.1.0"),
     ];
-    let times: &[&str] = &["", "/2", "/+2", "/02", "/2:00:00", "/0", "/-0", "/2:30", "/2:00:15", "/-2:30:15", "/24", "/25", "/167:59:59", "/-167:59:59", "/7:05:09"];
+    let times: &[&str] = &["", "/2", "/+2", "/02", "/2:00:00", "/0", "/-0", "/2:30", "/2:00:15", "/-2:30:15", "/-0:30", "/-0:00:01", "/-0:59:59", "/-1", "/-1:00:01", "/24", "/25", "/167:59:59", "/-167:59:59", "/7:05:09"];
     let few: &[&str] = &["", "/0", "/-167:59:59"];
     for (ds, de) in pairs {
         for ts in times {
